@@ -334,10 +334,15 @@ class _Marshaller:
         # unicode. Force marsaling this type as string.
 
         self._write(TYPE_CODE)
-        self.w_long(x.co_argcount)
-        self.w_long(x.co_nlocals)
-        self.w_long(x.co_stacksize)
-        self.w_long(x.co_flags)
+        # Before Python 2.3 these fields (and the first line number) are 16 bits wide.
+        if self.python_version and self.python_version < (2, 3):
+            w_field = self.w_short
+        else:
+            w_field = self.w_long
+        w_field(x.co_argcount)
+        w_field(x.co_nlocals)
+        w_field(x.co_stacksize)
+        w_field(x.co_flags)
         self.dump_string(x.co_code)
 
         # If running in a Python3 interpreter, some constants will get
@@ -361,7 +366,7 @@ class _Marshaller:
         self.dump(x.co_cellvars)
         self.dump_string(x.co_filename)
         self.dump_string(x.co_name)
-        self.w_long(x.co_firstlineno)
+        w_field(x.co_firstlineno)
         self.dump_string(x.co_lnotab)
         return
 
